@@ -26,9 +26,9 @@ def users_factory(a, base):
             a.User(base_path=base)]
 
 
-def slow_users_factory(a, base):
+def slow_users_factory(a, base, **kw):
     # the same table behind a user manager that suspends in every operation (see vf/usermgr.py)
-    return make_slow_manager(a, users_factory(a, base))
+    return make_slow_manager(a, users_factory(a, base), **kw)
 
 
 class Model:
@@ -112,7 +112,11 @@ class Model:
 
 def build(hist, n, limit, chooser=None, explore_from=None, slow=False):
     """replay a history on a fresh server; returns (rig, model, problems, last replies)"""
-    rig = Rig(chooser=chooser, n_sessions=n, users=slow_users_factory if slow else users_factory, tree={}, advance=0,
+    if isinstance(slow, dict):
+        ufac = lambda a, base: slow_users_factory(a, base, **slow)     # noqa
+    else:
+        ufac = slow_users_factory if slow else users_factory
+    rig = Rig(chooser=chooser, n_sessions=n, users=ufac, tree={}, advance=0,
               server_kwargs={"maximum_connections": limit, "idle_timeout": IDLE, "wait_future_timeout": 1})
 
     async def boom(connection, rest):
@@ -130,6 +134,13 @@ def build(hist, n, limit, chooser=None, explore_from=None, slow=False):
             if e == "@idle":
                 rig.world.settle(IDLE + 1)
                 model.idle()
+                rig.collect()
+            elif e == "@restart":
+                # server.close() with whatever is in flight, then the same server object is started again
+                rig.world.close_server(rig.server)
+                rig.world.settle(0)
+                model.idle()
+                rig.world.start_server(rig.server)
                 rig.collect()
             elif e == "@wait425":
                 rig.world.settle(1.5)           # past wait_future_timeout, short of the idle timeout
@@ -192,6 +203,19 @@ def final_probe(rig, model, hist):
             s.peer.vanish()
     w.settle(0)
     limit = model.limit
+    # white box (skipped if the attributes disappear): with nobody connected every counter is back at its maximum -
+    # not below (a leak) and not above (a slot returned twice admits one session too many later)
+    try:
+        srv = rig.server
+        if limit is not None and srv.available_connections.value != limit:
+            problems.append({"kind": "server-counter-after-all-gone", "value": srv.available_connections.value,
+                             "expected": limit, "history": hist})
+        for user, ac in srv.user_manager.available_connections.items():
+            if ac.maximum_value is not None and ac.value != ac.maximum_value:
+                problems.append({"kind": "user-counter-after-all-gone", "user": user.login or "anonymous", "value": ac.value,
+                                 "expected": ac.maximum_value, "history": hist})
+    except AttributeError:
+        pass
     probes = []
     if limit is not None:
         for k in range(limit + 1):
@@ -293,12 +317,26 @@ RACES = [
     ("slow-two-sessions-one-user-slot", 2, 2, [(0, "@connect"), (1, "@connect"), (0, "USER alice!"), (1, "USER alice")],
      2, True),
     ("slow-boom-while-user", 1, 1, [(0, "@connect"), (0, "USER alice"), (0, "USER bob!"), (0, "BOOM")], 2, True),
+    # server.close() (and a restart) while a login handler is parked in the user manager
+    ("slow-relogin-restart", 1, 2, [(0, "@connect"), (0, "USER alice"), (0, "USER bob!"), (-1, "@restart")], 2, True),
+    ("slow-user-restart", 1, 1, [(0, "@connect"), (0, "USER alice!"), (-1, "@restart")], 1, True),
+    ("slow-pass-restart", 1, 1, [(0, "@connect"), (0, "USER bob"), (0, "PASS pw!"), (-1, "@restart")], 2, True),
+    # the user manager itself fails (database down) in the middle of a re-login / a login / a password check
+    ("um-fails-on-relogin", 1, 2, [(0, "@connect"), (0, "USER alice"), (0, "USER bob"), (0, "@drop")], 2,
+     {"ops": (), "fail": {"get_user": 2}}),
+    ("um-fails-on-login", 1, 1, [(0, "@connect"), (0, "USER alice"), (0, "@drop")], 1, {"ops": (), "fail": {"get_user": 1}}),
+    ("um-fails-on-pass", 1, 1, [(0, "@connect"), (0, "USER bob"), (0, "PASS pw"), (0, "@drop")], 2,
+     {"ops": (), "fail": {"authenticate": 1}}),
+    ("um-fails-on-logout-notification", 1, 1, [(0, "@connect"), (0, "USER alice"), (0, "USER bob"), (0, "QUIT")], 2,
+     {"ops": (), "fail": {"notify_logout": 1}}),
+    ("slow-um-fails-on-relogin", 1, 2, [(0, "@connect"), (0, "USER alice"), (0, "USER bob"), (0, "@drop")], 2,
+     {"fail": {"get_user": 2}}),
 ]
 
 
 def run_race(case, chooser):
     name, n, limit, hist, ef, *rest = case
-    slow = bool(rest and rest[0])
+    slow = rest[0] if rest else False
     with logcap.capture() as cap:
         rig, model, problems = build(hist, n, limit, chooser=chooser, explore_from=ef, slow=slow)
         try:
